@@ -29,6 +29,11 @@ ENDPOINT_FIELD = "_endpoint"
 KIND_NAME = {"E": "extent", "G": "gpts", "S": "sampling"}
 CLOSE_CALLS = {"allclose", "isclose", "array_equal", "array_equiv"}
 
+# Assigning None to a locked, defined extent un-defines it without raising (and a following assignment
+# then changes the "locked" value).  Reported as information by default: the property quantifies over
+# assignments of values to a fully defined grid.  Set to True to report it as a violation instead.
+UNDEFINE_LOCKED_IS_VIOLATION = False
+
 NONE = ("none",)
 UNK = ("unk",)
 
@@ -565,7 +570,9 @@ def run(ctx) -> None:
                             refit = k == "S" and E != NONE and fin[fname] == adj("S", E, adj("G", E, old))
                             if v_none and fin[fname] == NONE and k == kind:
                                 record("R-LOCK", setter, f"undefine:{k}",
-                                       f"assigning None un-defines the locked {KIND_NAME[k]}", cfg_text, "info")
+                                       f"assigning None un-defines the locked {KIND_NAME[k]} without raising (a later "
+                                       f"assignment can then change the locked value)", cfg_text,
+                                       "violation" if UNDEFINE_LOCKED_IS_VIOLATION else "info")
                             elif nlocks >= 2:
                                 record("R-LOCK", setter, f"overconstrained:{k}",
                                        f"KNOWN-SEMANTICS two or more locks: locked {KIND_NAME[k]} becomes "
